@@ -61,6 +61,22 @@ def make_strategy(st, reg):
                     raise ValueError("shift strategy: exact int expected")
                 return value - _k
         return Shift()
+    if st[0] == "typed":
+        ident, mode = st[1], st[2]
+
+        def ser_typed(value) -> int:        # the return annotation is what build_json_schema describes for the field
+            return 7
+        if mode == "both":
+            class Typed(SerializationStrategy):
+                def serialize(self, value) -> int:
+                    return 7
+
+                def deserialize(self, value, _i=ident):
+                    return _deser_marker(_i)(value)
+            return Typed()
+        if mode == "ser":
+            return {"serialize": ser_typed}
+        return {"deserialize": _deser_marker(ident)}
     if st[0] == "mark":
         ident, mode = st[1], st[2]
         if mode == "both":
